@@ -10,7 +10,8 @@ def run(tier, replay=None):
     if replay:
         return semcheck.replay_file(ck, replay)
     fams = props.c17_families(tier, vlib.seed())
-    semcheck.run_families(ck, fams, props.c17_nontrivial)
+    vs = semcheck.run_families(ck, fams, props.c17_nontrivial)
+    semcheck.binding_selftest(ck, vs)
     ck.cov["rule"] = props.c17_rule
     ck.assumptions += ["CalcSem.tla as evaluated by TLC is the oracle; Unspecified sessions are only checked for no-crash"]
     return ck.finish()
